@@ -333,3 +333,33 @@ def flush_busy_history():
                                        st.just(['announce', 0]), st.just(['tick']), st.just(['answer', OK])), max_size=10))
         return cfg, acts + tail
     return strat()
+
+
+def announce_window_history():
+    """A (stale) announcement of a message arrives while the storage operations that follow a relay answer are still pending."""
+    T = {'shape': 'raise_t', 'replies': [0]}
+    OK = {'shape': 'none'}
+
+    @st.composite
+    def strat(draw):
+        cfg = {'backend': draw(st.sampled_from(['dict', 'dict', 'disk', 'shelf', 'redis', 'cloud'])),
+               'backoff': [draw(st.sampled_from([5, 5, 0, 8]))], 'backoff_forever': True, 'announce': True,
+               'store_pool': draw(st.sampled_from([None, None, 3])), 'relay_pool': draw(st.sampled_from([None, None, 2]))}
+        n = draw(st.integers(1, 3))
+        acts = [['enqueue', {'n': n, 'sender': draw(st.booleans()), 'body': ''}]]
+        if draw(st.integers(0, 2)) == 0:
+            acts.append(['serve', draw(st.sampled_from([T, {'shape': 'map', 'per': ['ok', 'temp', 'temp'], 'replies': [0]}]))])
+            acts.append(['tick'])
+        per = draw(st.lists(st.sampled_from(['ok', 'perm', 'ok', 'temp']), min_size=n, max_size=n))
+        spec = draw(st.sampled_from([{'shape': 'map', 'per': per, 'replies': [0]}, {'shape': 'seq', 'per': per, 'replies': [1]},
+                                     {'shape': 'map', 'per': per, 'replies': [0]}, OK, T, {'shape': 'raise_p', 'replies': [0]}]))
+        acts.append(['answer', spec])
+        # some of the storage operations that follow the answer may complete before the announcement
+        for _ in range(draw(st.integers(0, 2))):
+            acts.append(['release', 0, OK])
+        acts.append(['announce', 0])
+        tail = draw(st.lists(st.one_of(st.integers(0, 4).map(lambda i: ['release', i, OK]), st.integers(0, 4).map(lambda i: ['release', i, OK]),
+                                       st.just(['announce', 0]), st.just(['tick']), st.just(['storage']), st.just(['answer', OK]),
+                                       st.just(['answer', T])), min_size=2, max_size=12))
+        return cfg, acts + tail
+    return strat()
